@@ -173,7 +173,14 @@ def call(name: str, a: Dict[str, Any]) -> Any:  # noqa: WPS212, WPS231
 
         plots.linprog = _pl.linprog
         fn = plots.plot_assumptions if name == "plot_assumptions" else plots.plot_guarantees
-        fig = fn(a["self"], a["x_var"], a["y_var"], a["var_values"], a["x_lims"], a["y_lims"], show=False)
+        tr = a.get("transform")
+        if name == "plot_guarantees" and tr:
+            xt, yt = {"swap": (lambda x, y: y, lambda x, y: x), "scale": (lambda x, y: 2.0 * x + 1.0, lambda x, y: y - x),
+                      "square": (lambda x, y: x * x, lambda x, y: x + y)}[tr]
+            fig = fn(a["self"], a["x_var"], a["y_var"], a["var_values"], a["x_lims"], a["y_lims"], new_x_var="p", new_y_var="q",
+                     x_transform=xt, y_transform=yt, number_of_points=7, show=False)
+        else:
+            fig = fn(a["self"], a["x_var"], a["y_var"], a["var_values"], a["x_lims"], a["y_lims"], show=False)
         return type(fig).__name__
     if name == "vertices":
         import pacti.terms.polyhedra.polyhedra as _pl  # noqa: WPS433
@@ -399,8 +406,14 @@ def gen_side(rs, names: List[str], depth: int = 0, allow_abs: bool = True) -> st
 
 def gen_string(rs, names: List[str]) -> str:
     """Constraint strings over the documented grammar, including shapes that must be rejected."""
-    kind = rs.choice(["plain", "plain", "geq", "eq", "abs", "abs2", "chain", "paren", "arith", "nonconvex", "malformed", "repeat",
+    kind = rs.choice(["plain", "plain", "geq", "eq", "abs", "abs2", "abs_both", "chain", "paren", "arith", "nonconvex", "malformed", "repeat",
                       "tree", "tree", "tree", "tree_eq"])
+    if kind == "abs_both":
+        # the same absolute-value term on both sides of the relation (it is combined into one when the sides are subtracted)
+        inner = rs.choice(names) if rs.random() < 0.6 else "%s %s %s" % (rs.choice(names), rs.choice(["-", "+"]), rs.choice(names))
+        k1, k2 = rs.choice(["3", "2", "", "1.5", "4*"]), rs.choice(["", "", "0.5", "2"])
+        rel = rs.choice(["<=", " <= ", ">="])
+        return "%s|%s| %s %s|%s| %s %s" % (k1, inner, rel, k2, inner, rs.choice(["+", "-"]), rs.choice(["4", "1", "2.5", rs.choice(names)]))
     if kind == "tree":
         lhs = gen_side(rs, names)
         rel = rs.choice(["<=", "<=", ">=", " <= ", " >= "])
@@ -880,6 +893,8 @@ def gen_step(rs, view: View, allowed_ops: List[str], weights: Optional[Dict[str,
         A["x_var"] = _lit(xs[0] if as_str else Var(xs[0]))
         A["y_var"] = _lit(xs[1] if as_str else Var(xs[1]))
         A["var_values"] = _lit(vals)
+        if name == "plot_guarantees":
+            A["transform"] = _lit(rs.choice([None, None, "swap", "scale", "square"]))
         A["x_lims"] = _lit((lo, hi) if rs.random() < 0.9 else (hi, lo))
         A["y_lims"] = _lit((float(rs.choice([-10, 0, -1])), float(rs.choice([10, 5, 100]))))
     elif name == "vertices":
